@@ -203,6 +203,17 @@ def calcOrd (nn : N → N → Bool) (ss : Ordering → Bool) (ns sn : Bool) (r l
   -- later pushes end up on top
   p4 ++ p3 ++ p2 ++ p1
 
+/-- `calcEqual`: scalar operands (ArgNumber / ArgString) are compared by type — different types
+are never equal, numbers by `==` (and the Boolean flags must agree), text with
+`strings.EqualFold` (modelled on ASCII letters); anything else by its `Value()` string -/
+def calcEqual (r l : Arg N) : Bool :=
+  match r, l with
+  | .num y br, .num x bl => (bl == br) && eq x y
+  | .str t, .str s => decide (upper s = upper t)
+  | .num _ _, .str _ => false
+  | .str _, .num _ _ => false
+  | r, l => decide (value r = value l)
+
 /-- body of each function named in the `tokenCalcFunc` map: the values it pushes (top first) -/
 def runCalcFn (fn : CalcFn) (r l : Arg N) : Except MErr (List (Arg N)) :=
   match fn with
@@ -210,8 +221,8 @@ def runCalcFn (fn : CalcFn) (r l : Arg N) : Except MErr (List (Arg N)) :=
   | .calcMultiply => arith mul r l
   | .calcAdd => arith add r l
   | .calcDiv => calcDiv r l
-  | .calcEq => pure [mkBool (value r = value l)]
-  | .calcNEq => pure [mkBool (value r ≠ value l)]
+  | .calcEq => pure [mkBool (calcEqual r l)]
+  | .calcNEq => pure [mkBool (!calcEqual r l)]
   | .calcL => pure (calcOrd lt (· == .lt) true false r l)
   | .calcLe => pure (calcOrd le (· != .gt) true false r l)
   | .calcG => pure (calcOrd (fun x y => lt y x) (· == .gt) false true r l)
@@ -502,8 +513,8 @@ def applyBin (op : Op) (l r : Arg N) : Except MErr (Arg N) :=
         let b ← liftE (toNumber r')
         if isZero b then throw (.msg (.lit formulaErrorDIV))
         pure (mkNum (div a b))
-      | .eq => pure (mkBool (value r' = value l'))
-      | .ne => pure (mkBool (value r' ≠ value l'))
+      | .eq => pure (mkBool (calcEqual r' l'))
+      | .ne => pure (mkBool (!calcEqual r' l'))
       | .lt => ord lt (· == .lt) true false
       | .le => ord le (· != .gt) true false
       | .gt => ord (fun x y => lt y x) (· == .gt) false true
